@@ -66,6 +66,13 @@ class Fn:
                         and any(isinstance(z,ast.Name) and z.id==n.args[0].args.args[0].arg for z in ast.walk(n.args[0].body))):
                     for nm in (n.args[0].args.args[0].arg,"reps_"):
                         if nm not in loc and nm not in self.params: loc.append(nm)
+        if getattr(mod,"sub_callbacks",False):
+            for n in ast.walk(fn):
+                if (isinstance(n,ast.Call) and isinstance(n.func,ast.Attribute) and n.func.attr=="sub" and len(n.args)==2 and isinstance(n.args[0],ast.Attribute)
+                        and isinstance(n.args[0].value,ast.Name) and n.args[0].value.id=="self"):
+                    for nm in ("m_","reps_"):
+                        if nm not in loc and nm not in self.params: loc.append(nm)
+                if isinstance(n,ast.ListComp) and "acc_" not in loc: loc.append("acc_")
         self.vars=self.params+loc
         self.is_method = cls is not None and self.params and self.params[0] in ("self",)
         # a method that calls .write(...) on a parameter (a file-like object modelled as the list of strings written): that parameter is returned too
@@ -212,7 +219,12 @@ class Fn:
             g=e.generators[0]; it=self.ex(g.iter,binds); items=self.tmp(); binds.append("%s <- py_iter %s ;; "%(items,it))
             sub=[]; saved=self.vars; self.vars=self.vars+[g.target.id] if g.target.id not in self.vars else self.vars
             el=self.ex(e.elt,sub); self.vars=saved
-            if any("v_self) := p_" in s for s in sub): raise Unsupported("effect in comprehension")
+            if any("v_self) := p_" in s for s in sub):
+                # the element expression updates self: a loop over the whole state with an accumulator
+                if not (isinstance(e,ast.ListComp) and "acc_" in self.vars and g.target.id in self.vars): raise Unsupported("effect in comprehension")
+                binds.append("let v_acc_ := (VList []) in e_ <- py_for %s (fun x_ %s => let v_%s := x_ in %s"%(items,self.pat(),g.target.id,"".join(sub)))
+                ta=self.tmp(); binds.append("%s <- py_list_append v_acc_ %s ;; let v_acc_ := %s in Normal %s) %s ;; let %s := e_ in "%(ta,el,ta,self.env(),self.env(),self.pat()))
+                return "v_acc_"
             t=self.tmp(); binds.append("%s <- py_for %s (fun x_ acc_ => let v_%s := x_ in %sNormal (acc_ ++ [%s])%%list) (@nil pyval) ;; "%(t,items,g.target.id,"".join(sub),el))
             return "(VList %s)"%t
         if isinstance(e,ast.JoinedStr):
@@ -235,7 +247,11 @@ class Fn:
             return "(VList %s)"%t
         if isinstance(e,ast.IfExp):
             c=self.ex(e.test,binds); sa=[]; a=self.ex(e.body,sa); sb=[]; b=self.ex(e.orelse,sb); t=self.tmp()
-            if any("v_self) := p_" in s for s in sa+sb): raise Unsupported("effect in conditional expression")
+            if any("v_self) := p_" in s for s in sa+sb):
+                # a branch updates self: both branches answer (value, self)
+                t=self.tmp(); r=self.tmp()
+                binds.append("%s <- (if truthy %s then (%sNormal (VTuple [%s; v_self])) else (%sNormal (VTuple [%s; v_self]))) ;; p_ <- unpack2 %s ;; let '(%s, v_self) := p_ in "%(t,c,"".join(sa),a,"".join(sb),b,t,r))
+                return r
             binds.append("%s <- (if truthy %s then (%sNormal %s) else (%sNormal %s)) ;; "%(t,c,"".join(sa),a,"".join(sb),b)); return t
         if isinstance(e,ast.Call): return self.call(e,binds)
         raise Unsupported("expr "+ast.dump(e)[:70])
@@ -276,6 +292,11 @@ class Fn:
             args=self.resolve_args(callee,e,binds,True); self.calls.add((k,f.attr))
             t=self.tmp(); r=self.tmp(); binds.append("%s <- %s py_call fuel v_%s %s ;; "%(t,gname(k,f.attr),f.value.id," ".join(args)))
             binds.append("p_ <- unpack2 %s ;; let '(%s, v_%s) := p_ in "%(t,r,f.value.id)); return r
+        if (getattr(self.mod,"sub_callbacks",False) and isinstance(f,ast.Attribute) and f.attr=="sub" and len(e.args)==2 and isinstance(e.args[0],ast.Attribute)
+                and isinstance(e.args[0].value,ast.Name) and e.args[0].value.id=="self" and not e.keywords):
+            lam=ast.Lambda(args=ast.arguments(posonlyargs=[],args=[ast.arg(arg="m_")],kwonlyargs=[],kw_defaults=[],defaults=[]),
+                           body=ast.Call(func=e.args[0],args=[ast.Name(id="m_",ctx=ast.Load())],keywords=[]))
+            return self.call(ast.Call(func=f,args=[lam,e.args[1]],keywords=[]),binds)
         # X.sub(lambda m: BODY, line): matches from the py_call parameter, one translated BODY per match, py_stitch
         if (getattr(self.mod,"sub_callbacks",False) and isinstance(f,ast.Attribute) and f.attr=="sub" and len(e.args)==2 and isinstance(e.args[0],ast.Lambda)
                 and len(e.args[0].args.args)==1 and not e.keywords
@@ -305,6 +326,10 @@ class Fn:
             pos="(VList [%s])"%";".join(self.ex(a,binds) for a in e.args)
             t=self.tmp(); r=self.tmp(); o=self.tmp()
             binds.append("%s <- py_call (VFun (of_string %s)) %s ;; p_ <- unpack2 %s ;; let '(%s, %s) := p_ in "%(t,cq(f.id),pos,t,r,o)); binds.append(self.store(e.args[k],o)); return r
+        if (isinstance(f,ast.Attribute) and f.attr in getattr(self.mod,"method_oracles",()) and isinstance(f.value,ast.Attribute) and isinstance(f.value.value,ast.Name)
+                and f.value.value.id=="self" and not e.keywords and not any(isinstance(a,ast.Lambda) for a in e.args)):
+            obj=self.ex(f.value,binds); args=[self.ex(a,binds) for a in e.args]; t=self.tmp()
+            binds.append("%s <- py_call (VFun (of_string %s)) (VList [%s]) ;; "%(t,cq(f.attr),";".join([obj]+args))); return t
         # self.<field>.<method>(...) on an object of another class, uninterpreted, answering (result, updated object)
         if (isinstance(f,ast.Attribute) and f.attr in getattr(self.mod,"method_thread_oracles",()) and isinstance(f.value,ast.Attribute) and isinstance(f.value.value,ast.Name)
                 and f.value.value.id=="self" and not e.keywords):
